@@ -12,18 +12,16 @@ What `bqskit/ir/lang/qasm2` does with a parameter expression, step by step:
    ```
    → `qExp` (tree type `QE`; the flat `exp`/`mulexp` children are kept as left-nested `bin`).
 2. `visitor.py:eval_exp_recurse` flattens the tree to Python source text: tokens are
-   concatenated, `usub` → `-…`, `pow` → `a**b`, `unaryexp` → `f(…)`, and — because `parenexp`
-   has no case of its own and its `(` `)` tokens are filtered from the tree — a parenthesised
-   sub-expression is written WITHOUT its parentheses → `flatten`.
+   concatenated, `usub` → `-…`, `pow` → `a**b`, `unaryexp` → `f(…)`, `parenexp` → `(…)`
+   → `flatten`.
 3. `eval(text, {}, eval_locals)` : Python's expression grammar re-parses the text → `pySum`
-   (tree type `PE`) and evaluates it with `pi sin cos tan ln exp` bound → `PE.eval`.
+   (tree type `PE`) and evaluates it with `pi sin cos tan ln exp sqrt` bound → `PE.eval`.
 4. Inside user gates, formal parameters are first replaced by `PARAM_IDX` tokens
-   (`replace_param_ids`) and, at every call, by `Token('REAL', value)` whose text is
-   `str(float)` (`replace_param_indices`) → `bindIds`, `substVals`; a negative value is the two
-   Python tokens `-` `|v|` (`valToks`).
+   (`replace_param_ids`) and, at every call, by `Token('REAL', '(' + repr(value) + ')')`
+   (`replace_param_indices`) → `bindIds`, `substVals`; the spliced text `(v)` is the three
+   Python tokens `(` `v` `)` where `v` stands for the float that `repr` round-trips (a
+   negative `v` is `-|v|` to Python's lexer; `-(x)` is exact, so the atom's value is `v`).
 
-`specEval` is the reference reading of the same token string (parentheses respected, all six
-functions defined); it is what OpenQASM 2 prescribes and what Qiskit computes.
 Everything is generic in the value type `V` with operations `Arith V`; the driver
 instantiates `V := Float` for comparison output only. -/
 namespace BqVerif.Qasm
@@ -81,14 +79,12 @@ structure Arith (V : Type) where
   pow : V → V → V
   neg : V → V
   fn : Fn → V → V
-  isNeg : V → Bool
-  abs : V → V
 
 variable {V : Type}
 
 def Fn.ofKw : String → Option Fn
   | "sin" => some .sin | "cos" => some .cos | "tan" => some .tan
-  | "EXP" => some .exp | "ln" => some .ln | "sqrt" => some .sqrt
+  | "exp" => some .exp | "ln" => some .ln | "sqrt" => some .sqrt
   | _ => none
 
 /-- Expression token of a program token; `none` for tokens that cannot occur in `exp`. -/
@@ -172,35 +168,19 @@ def larkParse (ts : List (ETok V)) : Option (QE V) :=
 def BOp.tok : BOp → ETok V
   | .add => .plus | .sub => .minus | .mul => .star | .div => .slash
 
-/-- `str(float)` of a substituted value, as Python tokens. -/
-def valToks (A : Arith V) (v : V) : List (ETok V) :=
-  if A.isNeg v then [.minus, .val (A.abs v)] else [.val v]
-
 def natLit (n : Nat) : String := toString n
 
 /-- The Python source text (as tokens) that `eval_exp_recurse` builds. -/
-def flatten (A : Arith V) : QE V → List (ETok V)
+def flatten : QE V → List (ETok V)
   | .num s => [.lit s]
   | .id s => [.name s]
   | .pidx i => [.lit (natLit i)]
-  | .val v => valToks A v
-  | .paren e => flatten A e                              -- the parentheses are lost here
-  | .usub e => .minus :: flatten A e
-  | .pow a b => flatten A a ++ .pow :: flatten A b
-  | .call f e => .fn f :: .lp :: flatten A e ++ [.rp]
-  | .bin op l r => flatten A l ++ op.tok :: flatten A r
-
-/-- The text a reader that keeps the parentheses would build (reference). -/
-def flattenSpec (A : Arith V) : QE V → List (ETok V)
-  | .num s => [.lit s]
-  | .id s => [.name s]
-  | .pidx i => [.lit (natLit i)]
-  | .val v => [.val v]                                   -- a value is one atom
-  | .paren e => .lp :: flattenSpec A e ++ [.rp]
-  | .usub e => .minus :: flattenSpec A e
-  | .pow a b => flattenSpec A a ++ .pow :: flattenSpec A b
-  | .call f e => .fn f :: .lp :: flattenSpec A e ++ [.rp]
-  | .bin op l r => flattenSpec A l ++ op.tok :: flattenSpec A r
+  | .val v => [.lp, .val v, .rp]                         -- '(' + repr(v) + ')'
+  | .paren e => .lp :: flatten e ++ [.rp]
+  | .usub e => .minus :: flatten e
+  | .pow a b => flatten a ++ .pow :: flatten b
+  | .call f e => .fn f :: .lp :: flatten e ++ [.rp]
+  | .bin op l r => flatten l ++ op.tok :: flatten r
 
 /-! ## 3. Python's reading of the text -/
 mutual
@@ -304,8 +284,7 @@ def parsePyLit (s : String) : Option (Nat × Int) :=
 
 /-! ### evaluation -/
 
-/-- `eval(text, {}, eval_locals)`: `pi sin cos tan ln exp` are bound; the grammar's function
-keywords are `sin cos tan EXP ln sqrt`, so `EXP(…)` and `sqrt(…)` raise NameError. -/
+/-- `eval(text, {}, eval_locals)`: `pi sin cos tan ln exp sqrt` are bound. -/
 def PE.eval (A : Arith V) : PE V → Option V
   | .lit s => (parsePyLit s).map fun (m, e) => A.ofLit m e
   | .val v => some v
@@ -321,36 +300,11 @@ def PE.eval (A : Arith V) : PE V → Option V
     match a.eval A, b.eval A with
     | some x, some y => some (A.pow x y)
     | _, _ => none
-  | .call f e =>
-    match f with
-    | .exp | .sqrt => none
-    | _ => (e.eval A).map (A.fn f)
-
-/-- Reference evaluation: all six functions exist. -/
-def PE.evalSpec (A : Arith V) : PE V → Option V
-  | .lit s => (parsePyLit s).map fun (m, e) => A.ofLit m e
-  | .val v => some v
-  | .name s => if s = "pi" then some A.pi else none
-  | .neg e => (e.evalSpec A).map A.neg
-  | .bin op l r =>
-    match l.evalSpec A, r.evalSpec A with
-    | some a, some b =>
-      some (match op with
-        | .add => A.add a b | .sub => A.sub a b | .mul => A.mul a b | .div => A.div a b)
-    | _, _ => none
-  | .pow a b =>
-    match a.evalSpec A, b.evalSpec A with
-    | some x, some y => some (A.pow x y)
-    | _, _ => none
-  | .call f e => (e.evalSpec A).map (A.fn f)
+  | .call f e => (e.eval A).map (A.fn f)
 
 /-- `float(eval_exp(tree))` as the code computes it. -/
 def evalQ (A : Arith V) (e : QE V) : Option V :=
-  (pyParse (flatten A e)).bind (PE.eval A)
-
-/-- What the expression means (parentheses respected, every function defined). -/
-def specEvalQ (A : Arith V) (e : QE V) : Option V :=
-  (pyParse (flattenSpec A e)).bind (PE.evalSpec A)
+  (pyParse (flatten e)).bind (PE.eval A)
 
 /-! ## 4. formal parameters -/
 
